@@ -109,9 +109,14 @@ fn pick_idx(t: &mut Tape, flat: &[Flat], pred: impl Fn(&Flat) -> bool) -> Option
 }
 
 fn one(t: &mut Tape, src: &str, corpus: &Corpus) -> String {
+    let which = t.weighted(&[10, 10, 3, 3, 2, 5, 5, 2, 2, 2, 2, 2]);
+    one_of(t, src, corpus, which)
+}
+
+fn one_of(t: &mut Tape, src: &str, corpus: &Corpus, which: usize) -> String {
     let root = syn::parse(src);
     let flat = syn::flatten(&root);
-    match t.weighted(&[10, 10, 3, 3, 2, 5, 5, 2, 2, 2, 2, 2]) {
+    match which {
         // respell a space
         0 => {
             if let Some(i) = pick_idx(t, &flat, |f| f.node.kind() == K::Space) {
@@ -312,6 +317,20 @@ fn floor_boundary(s: &str, mut i: usize) -> usize {
         i -= 1;
     }
     i
+}
+
+/// Mutations that only touch layout (blanks, comments, indentation, newline style): the meaning
+/// of a program -- and what it costs to compile -- stays the same.
+pub fn layout_only(t: &mut Tape, src: &str, corpus: &Corpus) -> String {
+    let k = 1 + t.weighted(&[4, 4, 3, 2]);
+    let mut cur = src.to_string();
+    for _ in 0..k {
+        // steer `one` to its layout cases by prefixing the tape choice: respell (0), comment (1),
+        // newline style (7), re-indent (8), trailing blanks (10), split a text line (11)
+        let which = t.pick(&[0u8, 0, 0, 1, 1, 7, 8, 10, 11]);
+        cur = one_of(t, &cur, corpus, which as usize);
+    }
+    cur
 }
 
 pub fn mutate(t: &mut Tape, src: &str, corpus: &Corpus) -> String {
